@@ -61,6 +61,15 @@ CLAIMED = {
         "loglik_mono is proved for the abstract EM step with the same formulas; the bridge from Model/EM.step to it is stated in DESIGN.md as partial.",
         "DESIGN.md §6 C03",
     ),
+    "C04": (
+        "Lean 4 theorems about Model/Estimators.lean and the GENERATED sampling arithmetic (_rows_needed_for_n_pairs, _proportion_sample_size_link_only, calculate_cartesian; re-translated "
+        "from the Python source on every run, instantiated at R/Q): an estimate is exactly count(level)/count(non-null) and observed levels sum to 1, unobserved levels get no estimate, "
+        "max_pairs >= #admissible pairs forces the full table (proportion clamped to 1) for all link types and a smaller max_pairs does not, prior = observed/(recall x cartesian) with the recall "
+        "guard exact and the result in [0,1], lower-id-left is orientation-free and idempotent, cartesian = #admissible pairs (C14). Tie: the five estimator entry points vs the compiled "
+        "model, seeded reproducibility by repeated runs, translation validation of the generated functions; brute-force recount oracle.",
+        "Trusted: Lean kernel + standard axioms, Mathlib; T-arith translator (validated per run); which rows a partial random sample draws is the engine's business.",
+        "DESIGN.md §6 C04",
+    ),
 }
 PENDING_REASON = "check not built yet (model/theorems/correspondence under construction per DESIGN.md §10b); not claimed until all three exist"
 
